@@ -52,6 +52,12 @@ func c16kNT(tok string) *dialer.NetworkType {
 		nt.UdpHealthDomain = dialer.UdpHealthDomainData
 	case 'x':
 		nt.L4Proto = consts.L4ProtoStr_UDP
+	case 'y':
+		nt.L4Proto = consts.L4ProtoStr_UDP
+		nt.IsDns = true
+	case 'z':
+		nt.L4Proto = consts.L4ProtoStr_UDP
+		nt.UdpHealthDomain = dialer.UdpHealthDomainDns
 	}
 	return nt
 }
@@ -107,7 +113,7 @@ func c16kIdx(tok string) int {
 	switch tok[0] {
 	case 't', 'T':
 		return 4 + b
-	case 'd':
+	case 'd', 'z':
 		return 2 + b
 	}
 	return 6 + b
@@ -125,7 +131,7 @@ type c16kGroup struct {
 }
 
 var c16kStd = []string{"d4", "d6", "t4", "t6", "u4", "u6"}
-var c16kAll = []string{"t4", "t6", "T4", "T6", "d4", "d6", "u4", "u6", "x4", "x6"}
+var c16kAll = []string{"t4", "t6", "T4", "T6", "d4", "d6", "u4", "u6", "x4", "x6", "y4", "y6", "z4", "z6"}
 
 func TestVerifC16Kernel(t *testing.T) {
 	st := VOpenStream("c16k")
